@@ -2,7 +2,7 @@
 //! calls, which shuttle cannot produce) plus Miri's data-race and UB detection.
 //! T threads share one compiled filter per program and run all programs R times; every
 //! stream must equal the stream computed sequentially before the threads started.
-//! Usage (by the C19 check): cargo +nightly miri run -p simmiri -- <threads> <reps>
+//! Usage (by the C19 check): cargo +nightly miri run -p simmiri -- <threads> <reps> [<programs>]
 use jaq_core::load::{Arena, File, Loader};
 use jaq_core::{data::JustLut, Compiler, Ctx, Filter, Vars};
 use jaq_json::Val;
@@ -23,12 +23,25 @@ const PROGRAMS: &[&str] = &[
     "[1, [2, 3]] | .[1][0] = 9 | .[0] += 1",
     "{a: 1, b: [1, 2]} | .b[1] as $y | {(\"k\\($y)\"): .a}",
     "[.[]?] | (. as $d | [$d, $d]) | .[0] == .[1]",
+    // native filters of jaq-std / jaq-json called directly (no prelude): anything they keep
+    // between calls - a cache, a lazily initialised table - is shared by the threads
+    "\"caaat AAa\" | [matches(\"a+\"; \"g\")] | length",
+    "\"caaat AAa\" | [matches(\"a+\"; \"gl\")] | length",
+    "\"caaat AAa\" | [matches(\"a+\"; \"gi\")] | length",
+    "\"<a href=\\\"x\\\">&</a>\" | escape_html",
+    "\"&lt;b&gt; &amp; &quot;\" | unescape_html",
+    "\"aGVsbG8=\" | decode_base64",
+    "\"a b/c\" | encode_uri | decode_uri",
+    "[3, 1, [2], \"x\"] | sort | tojson | fromjson",
+    "\"AbC\" | ascii_downcase | explode | implode | ltrimstr(\"a\")",
+    "{\"b\": 1, \"a\": [1, 2]} | keys_unsorted, length, has(\"a\"), contains({\"a\": [1]})",
 ];
 
 fn compile(code: &str) -> F {
     let arena = Arena::default();
     let modules = Loader::new(std::iter::empty()).load(&arena, File { code, path: () }).expect("parse");
-    Compiler::default().with_funs(jaq_core::funs()).compile(modules).expect("compile")
+    let funs = jaq_core::funs().chain(jaq_std::funs()).chain(jaq_json::funs());
+    Compiler::default().with_funs(funs).compile(modules).expect("compile")
 }
 
 fn run(f: &F, input: Val) -> Vec<String> {
@@ -49,7 +62,9 @@ fn main() {
     let args: Vec<usize> = std::env::args().skip(1).filter_map(|s| s.parse().ok()).collect();
     let threads = args.first().copied().unwrap_or(3);
     let reps = args.get(1).copied().unwrap_or(2);
-    let filters: Arc<Vec<F>> = Arc::new(PROGRAMS.iter().map(|p| compile(p)).collect());
+    // how many of the programs to run (the first 10 need no native of jaq-std: much cheaper)
+    let count = args.get(2).copied().unwrap_or(PROGRAMS.len()).min(PROGRAMS.len());
+    let filters: Arc<Vec<F>> = Arc::new(PROGRAMS[..count].iter().map(|p| compile(p)).collect());
     let alone: Arc<Vec<Vec<String>>> = Arc::new(filters.iter().map(|f| run(f, Val::Null)).collect());
     let handles: Vec<_> = (0..threads)
         .map(|t| {
@@ -75,5 +90,5 @@ fn main() {
             std::process::exit(1);
         }
     }
-    println!("simmiri: {threads} threads x {reps} repetitions x {} programs: all streams equal the sequential ones", PROGRAMS.len());
+    println!("simmiri: {threads} threads x {reps} repetitions x {count} programs: all streams equal the sequential ones");
 }
